@@ -499,6 +499,265 @@ def expand_sequence(seq, res):
     return [(gb, res["before"]), (ga, res["after"])]
 
 
+# ----- observe - mutate - observe on ONE State object (wave 3, seed C14_F's class)
+def fact_universe(objs, pred_sigs=None):
+    pred_sigs = PRED_SIGS if pred_sigs is None else pred_sigs
+    names_a = [n for n, t in objs if t in ("a", "b")]
+    names_c = [n for n, t in objs if t == "c"]
+    out = []
+    for p, sig in pred_sigs.items():
+        for combo in itertools.product(*[names_a if t == "a" else names_c for _, t in sig]):
+            out.append([p, list(combo)])
+    return out
+
+
+def fluent_universe(objs, func_sigs=None):
+    func_sigs = FUNC_SIGS if func_sigs is None else func_sigs
+    names_a = [n for n, t in objs if t in ("a", "b")]
+    out = []
+    for f, sig in func_sigs.items():
+        for combo in itertools.product(*[names_a for _ in sig]):
+            if len(set(combo)) == len(combo):
+                out.append([f, list(combo)])
+    return out
+
+
+FREE_PREDS = {"p": [("?x", "a")], "q": [("?x", "a"), ("?y", "a")], "z": [], "r": [("?x", "a"), ("?y", "a"), ("?w", "a")],
+              "px": [("?x", "a")], "p-x": [("?x", "a")]}
+FREE_FUNCS = {"f": [("?x", "a")], "g": [("?x", "a"), ("?y", "a")], "h": [], "fx": [("?x", "a")], "hh": []}
+
+
+def fact_descr(x, canon, sigs):
+    p, args = x
+    if canon and p in sigs and len(sigs[p]) == len(args):
+        sig = [[n, t] for n, t in sigs[p]]
+    else:
+        sig = [["?a%d" % i, "a"] for i in range(len(args))]
+    return {"name": p, "sig": sig, "map": [[n, o] for (n, _), o in zip(sig, args)], "pos": True}
+
+
+def fact_key(x, canon, sigs):
+    d = fact_descr(x, canon, sigs)
+    return "(%s %s)" % (x[0], " ".join(n for n, _ in d["sig"]))
+
+
+def fluent_descr(f, args, val, types):
+    return {"name": f, "sig": [[o, types.get(o, "a")] for o in args], "val": val, "rep": []}
+
+
+def mutate_abstract(a, m):
+    """what the in-place change means for the facts and fluents the state holds (None: no a-priori truth)"""
+    facts = [list(x) for x in a["facts"]]
+    fl = [list(x) for x in a["fluents"]]
+    k = m["kind"]
+    if k == "add-fact":
+        x = [m["fact"]["name"], [o for _, o in m["fact"]["map"]]]
+        if x not in facts:
+            facts.append(x)
+    elif k == "discard-fact":
+        facts = [x for x in facts if x != [m["name"], m["args"]]]
+    elif k == "set-group":
+        facts = [x for x in facts if x[0] != m["name"]] + [[g["name"], [o for _, o in g["map"]]] for g in m["facts"]]
+    elif k == "del-group":
+        facts = [x for x in facts if x[0] != m["name"]]
+    elif k == "rename-fact":
+        facts = [[m["new"], x[1]] if x == [m["name"], m["args"]] else x for x in facts]
+        facts = [x for i, x in enumerate(facts) if x not in facts[:i]]
+    elif k == "set-value":
+        v = fhex(float(m["ival"])) if "ival" in m else m["val"]
+        fl = [[f, a_, v] if (f, a_) == (m["name"], m["args"]) else [f, a_, w] for f, a_, w in fl]
+    elif k == "put-fluent":
+        v = m["fluent"]["val"]
+        if any((f, a_) == (m["fluent"]["name"], m["args"]) for f, a_, _ in fl):
+            fl = [[f, a_, v] if (f, a_) == (m["fluent"]["name"], m["args"]) else [f, a_, w] for f, a_, w in fl]
+        else:
+            fl.append([m["fluent"]["name"], m["args"], v])
+    elif k == "del-fluent":
+        fl = [x for x in fl if (x[0], x[1]) != (m["name"], m["args"])]
+    elif k == "rename-fluent":
+        fl = [[m["new"], a_, w] if (f, a_) == (m["name"], m["args"]) else [f, a_, w] for f, a_, w in fl]
+    elif k in ("rebuild-dicts", "flip-init"):
+        pass
+    elif k == "effects":
+        return succ_want({"facts": facts, "fluents": fl}, m["action"], m["args"])
+    else:
+        raise ValueError(k)
+    return {"facts": facts, "fluents": fl}
+
+
+def choose_mutation(rng, t, a, objs, canon, free, ptxt, effects_ok, same_valued):
+    """one in-place change of state t (abstract contents a) through the public attributes"""
+    sigs = FREE_PREDS if free else PRED_SIGS
+    fsigs = FREE_FUNCS if free else FUNC_SIGS
+    uni = fact_universe(objs, sigs)
+    absent = [x for x in uni if x not in a["facts"]]
+    funi = fluent_universe(objs, fsigs)
+    have = [[f, a_] for f, a_, _ in a["fluents"]]
+    fabsent = [x for x in funi if x not in have]
+    types = dict(objs)
+    kinds = ["rebuild-dicts", "flip-init"]
+    kinds += ["add-fact"] * 4 if absent else []
+    kinds += ["discard-fact"] * 5 + ["del-group", "set-group", "add-fact-present"] if a["facts"] else ["discard-absent"]
+    kinds += ["set-value"] * 4 + ["del-fluent", "put-fluent-existing"] if a["fluents"] else []
+    kinds += ["put-fluent"] * 2 if fabsent else []
+    if free and a["facts"]:
+        kinds += ["rename-fact"]
+    if free and a["fluents"]:
+        kinds += ["rename-fluent"]
+    if effects_ok:
+        calls = [(n, args) for n, args in route_calls(rng, objs, k=99) if succ_want(a, n, args) is not None]
+        kinds += ["effects"] * 5 if calls else []
+    k = rng.choice(kinds)
+    m = {"target": t}
+    if k in ("add-fact", "add-fact-present"):
+        x = rng.choice(absent if k == "add-fact" else a["facts"])
+        m.update(kind="add-fact", fact=fact_descr(x, canon, sigs), key=fact_key(x, canon, sigs))
+    elif k in ("discard-fact", "discard-absent"):
+        x = rng.choice(a["facts"]) if k == "discard-fact" else rng.choice(uni)
+        m.update(kind="discard-fact", name=x[0], args=x[1], how=rng.choice(["discard", "remove", "difference_update", "new-set"]))
+    elif k == "set-group":
+        p = rng.choice(a["facts"])[0]
+        new = [x for x in uni if x[0] == p and rng.random() < 0.5]
+        m.update(kind="set-group", name=p, key=fact_key([p, [None] * len(sigs[p])], canon, sigs) if p in sigs else "(%s )" % p,
+                 facts=[fact_descr(x, canon, sigs) for x in new])
+    elif k == "del-group":
+        m.update(kind="del-group", name=rng.choice(a["facts"])[0], how=rng.choice(["del", "clear"]))
+    elif k == "rename-fact":
+        x = rng.choice(a["facts"])
+        same_arity = [p for p, sg in sigs.items() if len(sg) == len(x[1]) and p != x[0]]
+        m.update(kind="rename-fact", name=x[0], args=x[1], new=rng.choice(same_arity) if same_arity else x[0] + "x")
+    elif k == "set-value":
+        f, a_, v = rng.choice(a["fluents"])
+        if rng.random() < 0.08:
+            m.update(kind="set-value", name=f, args=a_, ival=rng.choice(INT_VALUES[:7]))
+        else:
+            m.update(kind="set-value", name=f, args=a_, val=v if rng.random() < 0.1 else fhex(rng.choice(ROUTE_VALUES)))
+    elif k in ("put-fluent", "put-fluent-existing"):
+        f, a_ = rng.choice(fabsent if k == "put-fluent" else have)
+        m.update(kind="put-fluent", args=a_, key="(%s %s)" % (f, " ".join(a_)),
+                 fluent=fluent_descr(f, a_, fhex(rng.choice(ROUTE_VALUES)), types))
+    elif k == "del-fluent":
+        f, a_, _ = rng.choice(a["fluents"])
+        m.update(kind="del-fluent", name=f, args=a_, how=rng.choice(["del", "pop"]))
+    elif k == "rename-fluent":
+        f, a_, _ = rng.choice(a["fluents"])
+        same_arity = [g for g, sg in fsigs.items() if len(sg) == len(a_) and g != f and [g, a_] not in have]
+        m.update(kind="rename-fluent", name=f, args=a_, new=rng.choice(same_arity) if same_arity else f + "x")
+    elif k == "rebuild-dicts":
+        m.update(kind="rebuild-dicts", reverse=rng.random() < 0.5)
+    elif k == "flip-init":
+        m.update(kind="flip-init")
+    elif k == "effects":
+        n, args = rng.choice(calls)
+        m.update(kind="effects", action=n, args=args, domain=DOMAIN, problem=ptxt,
+                 prev=rng.choice(same_valued) if same_valued and rng.random() < 0.5 else None)
+    return m
+
+
+def omo_input(rng, n_steps, free):
+    """free: constructor-built states over names the fixed domain does not declare (no library reader in the loop,
+    facts and fluents are renamed in place); otherwise the states come from the parsers, the library's reader reads
+    every text back, and grounded effects are applied in place"""
+    objs = route_objects(rng)
+    if free:
+        objs = [(n, "a") for n, _ in objs]
+    sigs, fsigs = (FREE_PREDS, FREE_FUNCS) if free else (PRED_SIGS, FUNC_SIGS)
+    st = route_state(rng, objs, False, sigs, fsigs)
+    if not st["facts"] and rng.random() < 0.7:
+        st["facts"] = rng.sample(fact_universe(objs, sigs), 1)
+    ptxt = None if free else problem_text(rng, objs, st)
+    if free:
+        start = [dict(ctor_from_abstract(st, types=dict(objs)), want=st, kind="omo:start:ctor"),
+                 dict(permuted_variant(rng, st, rng.randint(0, 5)), kind="omo:start:ctor"),
+                 {"route": "copy", "of": 0, "want": st, "kind": "omo:start:copy"}]
+        canon = [False, False, False]
+    else:
+        start = [{"route": "problem", "domain": DOMAIN, "problem": ptxt, "want": st, "kind": "omo:start:problem"},
+                 {"route": "trajectory", "domain": DOMAIN, "problem": ptxt, "text": render_state_text(rng, st), "want": st,
+                  "kind": "omo:start:trajectory+objects"},
+                 {"route": "trajectory", "domain": DOMAIN, "problem": None, "text": render_state_text(rng, st, ":init"), "want": st,
+                  "kind": "omo:start:trajectory-deduced"},
+                 dict(ctor_from_abstract(st, types=dict(objs)), want=st, kind="omo:start:ctor"),
+                 {"route": "copy", "of": rng.choice([0, 1, 2]), "want": st, "kind": "omo:start:copy"}]
+        canon = [True, True, True, False, True]
+    cur = [st for _ in start]                # the contents of every state NOW
+    descrs = [dict(d) for d in start]
+    wants = [[d["want"] for d in descrs]]    # per moment
+    steps = []
+    effects_done = set()
+    undo = None
+    for _ in range(n_steps):
+        live = [i for i, w in enumerate(cur) if w is not None]
+        if not live:
+            break
+        t = rng.choice(live[:3] + live) if rng.random() < 0.7 else rng.choice(live)
+        if undo is not None and rng.random() < 0.5 and cur[undo["target"]] is not None:
+            m = undo                         # put back what the previous step removed
+            t = m["target"]
+        else:
+            same_valued = [i for i in live if i != t and same_abstract(cur[i], cur[t])]
+            m = choose_mutation(rng, t, cur[t], objs, canon[t], free, ptxt,
+                                (not free) and canon[t] and t not in effects_done, same_valued)
+        undo = None
+        if m["kind"] == "discard-fact" and [m["name"], m["args"]] in cur[t]["facts"]:
+            x = [m["name"], m["args"]]
+            undo = {"target": t, "kind": "add-fact", "fact": fact_descr(x, canon[t], sigs), "key": fact_key(x, canon[t], sigs)}
+        if m["kind"] == "effects":
+            effects_done.add(t)
+        new = mutate_abstract(cur[t], m)
+        cur = list(cur)
+        cur[t] = new
+        build = []
+        if new is not None and len(descrs) < 13:
+            base = len(descrs)
+            build.append(dict(ctor_from_abstract(new, types=dict(objs)), want=new, kind="omo:fresh-ctor"))
+            build.append({"route": "copy", "of": t, "want": new, "kind": "omo:copy-now"})
+            cn = [False, canon[t]]
+            if not free and rng.random() < 0.4:
+                build.append({"route": "trajectory", "domain": DOMAIN, "problem": ptxt if rng.random() < 0.5 else None,
+                              "text": render_state_text(rng, new), "want": new, "kind": "omo:fresh-trajectory"})
+                cn.append(True)
+            if not free and canon[t] and t not in effects_done and rng.random() < 0.4:
+                calls = [(n, args) for n, args in route_calls(rng, objs, k=99) if succ_want(new, n, args) is not None]
+                if calls:
+                    n, args = rng.choice(calls)
+                    build.append({"route": "succ", "of": t, "domain": DOMAIN, "problem": ptxt, "action": n, "args": args,
+                                  "want": succ_want(new, n, args), "kind": "omo:succ-now"})
+                    cn.append(False)
+            descrs += build
+            cur += [b["want"] for b in build]
+            canon += cn
+            assert len(descrs) == base + len(build)
+        steps.append({"mut": m, "build": build})
+        wants.append(list(cur))
+    return {"start": start, "steps": steps, "wants": wants, "ctx": None if free else {"domain": DOMAIN, "problem": ptxt},
+            "free": free}
+
+
+def expand_omo(q, res):
+    """one observe-mutate-observe job -> one group per moment: the states that exist then, with the contents they are
+    intended to have THEN"""
+    out = []
+    descrs = [dict(d) for d in q["start"]]
+    for m, mo in enumerate(res["moments"]):
+        if m > 0:
+            descrs = descrs + [dict(d) for d in q["steps"][m - 1]["build"]]
+        ds = [dict(d, want=w) for d, w in zip(descrs, q["wants"][m])]
+        g = {"descrs": ds, "kind": "omo:moment-0" if m == 0 else "omo:after-mutation", "ctx": q.get("ctx"), "omo": q, "moment": m}
+        out.append((g, {"states": mo["states"], "pairs": mo["pairs"], "ctx": res.get("ctx")}))
+    return out
+
+
+def omo_job(q):
+    return {"op": "c14.omo", "start": [strip(d) for d in q["start"]], "ctx": q.get("ctx"),
+            "steps": [{"mut": s_["mut"], "build": [strip(d) for d in s_["build"]]} for s_ in q["steps"]]}
+
+
+def build_omos(rng, tier):
+    n = 12 if tier == "quick" else 70
+    return [omo_input(rng, rng.randint(3, 5) if tier == "quick" else rng.randint(3, 8), free=(k % 4 == 3)) for k in range(n)]
+
+
 def has_repeat(st):
     return bool(st) and any(len(set(args)) < len(args) for _, args, _ in st["fluents"])
 
@@ -576,14 +835,22 @@ def crb(r):
     return "(Some (Returned (%s, %s)))" % (cbool(r["value"][0]), cstr(r["value"][1]))
 
 
+def copt_obs(r):
+    if r is None:
+        return "None"
+    return "(Some %s)" % cobs_val(r, cstr)
+
+
 def csinfo(descrs, i, info):
     descr = descrs[i]
     return ("{| si_dump := %s; si_want := %s; si_ser := %s; si_self_eq := %s; si_copy_eq := %s; si_copy_ser := %s; "
-            "si_indep := %s; si_src_rep := %s; si_src_int := %s; si_rb_with := %s; si_rb_ded := %s |}") % (
+            "si_indep := %s; si_src_rep := %s; si_src_int := %s; si_rb_with := %s; si_rb_ded := %s; "
+            "si_tser := %s; si_copy_tser := %s; si_hash := %s |}") % (
         cmstate(info.get("dump", EMPTY_DUMP)), cwant(descr.get("want")), cobs_val(info.get("ser"), cstr),
         cobs_val(info.get("self_eq"), cbool), cobs_val(info.get("copy_eq"), cbool), cobs_val(info.get("copy_ser"), cstr),
         cobs_val(info.get("indep"), cbool), cbool(src_rep(descrs, i)), cbool(src_int(descrs, i) is not None),
-        crb(info.get("rb_with")), crb(info.get("rb_ded")))
+        crb(info.get("rb_with")), crb(info.get("rb_ded")),
+        copt_obs(info.get("tser")), copt_obs(info.get("copy_tser")), copt_obs(info.get("hash")))
 
 
 def values_of(descrs, infos):
@@ -594,7 +861,7 @@ def values_of(descrs, infos):
                 vals.add(v)
         for _, f in info.get("dump", EMPTY_DUMP)["fluents"]:
             vals.add(f["val"])
-        found = [info[k]["value"] for k in ("ser", "copy_ser") if info.get(k) and "value" in info[k]]
+        found = [info[k]["value"] for k in ("ser", "copy_ser", "tser", "copy_tser") if info.get(k) and "value" in info[k]]
         found += [info[k]["value"][1] for k in ("rb_with", "rb_ded") if info.get(k) and "value" in info[k]]
         for text in found:
             for t in text.replace("(", " ").replace(")", " ").split():
@@ -737,17 +1004,20 @@ def run(args):
     phases["proofs"] = round(time.time() - t_, 1)
     t_ = time.time()
     rng = random.Random(args.seed * 7919 + 14)
-    seqs = []
+    seqs, omos = [], []
     if args.replay:
         data = json.load(open(args.replay))
         g = data["input"]["group"]
         if "seq" in g:
             groups, seqs = [], [g["seq"]]
+        elif "omo" in g:
+            groups, omos = [], [g["omo"]]
         else:
             groups = [g]
     else:
         groups = build_groups(rng, args.tier)
         seqs = build_sequences(random.Random(args.seed * 7919 + 1414), args.tier)
+        omos = build_omos(random.Random(args.seed * 7919 + 141414), args.tier)
     hashseed = args.seed % 5
     jobs = [{"op": "c14.group", "states": [strip(d) for d in g["descrs"]], "pairs": all_pairs(len(g["descrs"])),
              "ctx": g.get("ctx")} for g in groups]
@@ -783,8 +1053,34 @@ def run(args):
         for g, res in expand_sequence(q, r):
             seq_groups.append(g)
             seq_group_results.append(res)
+    # observe - mutate - observe jobs: one process each, one group per moment
+    omo_results = []
+    for a in range(0, len(omos), NCPU):
+        batch = [omo_job(q) for q in omos[a:a + NCPU]]
+        omo_results += run_impl(batch, hashseed=hashseed, nproc=len(batch))
+    omo_groups, omo_group_results = [], []
+    omo_stats = {"jobs": len(omos), "moments": 0, "mutations": {}, "mutation_raised": 0, "free_vocabulary_jobs": 0,
+                 "mutated_state_compared_with_fresh_state_of_new_contents": 0, "mutated_state_compared_with_its_old_copy": 0}
+    for q, r in zip(omos, omo_results):
+        if "moments" not in r or len(r["moments"]) != len(q["steps"]) + 1:
+            p = write_replay(PROP, "omo_failed_%d" % len(omo_groups), {"kind": "correspondence", "why": "the observe-mutate-observe driver failed",
+                                                                     "input": {"group": {"omo": q}}, "result": r})
+            rep.violation(p, False)
+            continue
+        omo_stats["free_vocabulary_jobs"] += 1 if q.get("free") else 0
+        for s_, ap in zip(q["steps"], r["applied"]):
+            k = s_["mut"]["kind"]
+            omo_stats["mutations"][k] = omo_stats["mutations"].get(k, 0) + 1
+            omo_stats["mutation_raised"] += 0 if "value" in ap else 1
+            kinds = [b["kind"] for b in s_["build"]]
+            omo_stats["mutated_state_compared_with_fresh_state_of_new_contents"] += 1 if "omo:fresh-ctor" in kinds else 0
+            omo_stats["mutated_state_compared_with_its_old_copy"] += 1
+        for g, res in expand_omo(q, r):
+            omo_stats["moments"] += 1
+            omo_groups.append(g)
+            omo_group_results.append(res)
     # the sequences are judged (and reported) first
-    groups, results = seq_groups + groups, seq_group_results + results
+    groups, results = omo_groups + seq_groups + groups, omo_group_results + seq_group_results + results
     vf = run_impl([{"op": "c14.value_facts"}], nproc=1)[0]
     # float facts for every value / numeral text met
     vals, texts = set(), set()
@@ -804,7 +1100,7 @@ def run(args):
              "states_with_repeated_fluent_argument": 0, "states_with_int_valued_fluent": 0, "empty_states": 0,
              "library_readback_observed": 0,
              "library_readback_equal": 0, "successors_with_expected_value": 0, "build_raised": 0,
-             "sequence_noise": noise_stats}
+             "sequence_noise": noise_stats, "observe_mutate_observe": omo_stats}
     ROWS_PER_LIT = 24
     for gi, (g, r) in enumerate(zip(groups, results)):
         descrs, infos = g["descrs"], r["states"]
@@ -815,6 +1111,8 @@ def run(args):
         def replay_group(idxs, g=g, descrs=descrs):
             if "seq" in g:          # the order of the whole job matters: no shrinking
                 return {"kind": g["kind"], "seq": g["seq"], "phase": g["phase"]}, list(idxs)
+            if "omo" in g:
+                return {"kind": g["kind"], "omo": g["omo"], "moment": g["moment"]}, list(idxs)
             sub, new = subgroup(descrs, idxs)
             return {"descrs": sub, "kind": g["kind"], "ctx": g.get("ctx")}, new
         # per-state and per-pair bookkeeping (python side: classification + distribution only)
